@@ -40,7 +40,7 @@ MANIFEST = dict(
          "y^(2^258+x) mod p computed by GMP with a modulus that the harness derives itself from the RFC formula (so a wrong table "
          "entry is visible); the same inputs are run under two blinding answers; two-party agreement is checked against "
          "2^((2^258+a)(2^258+b)); the sanity check is compared with a numeric comparison for values differing from p at every byte "
-         "position. Exploration is the right level: the domain (2^256 x 2^2048 x 2^256) cannot be enumerated, the oracle is exact, "
+         "position; in half of the modexp cases the sanity check is asked about the peer value before crypto_dh_compute uses it (the answer must not change what compute returns). Exploration is the right level: the domain (2^256 x 2^2048 x 2^256) cannot be enumerated, the oracle is exact, "
          "and all boundary classes named by the property are generated deliberately and counted in the class histogram. In the agreement sub one case in three derives the second private value from the first by a difference cheap fingerprints cannot see (CRC polynomial multiples, swapped bytes, single bits).",
     note="Trusted: clang 14 + ASan/UBSan, rapidcheck, GMP, OpenSSL 3.0 (BN_get_rfc3526_prime_2048 as cross-check of the derived modulus; "
          "OpenSSL BN is also the library's own arithmetic engine and is not instrumented). Leading-zero results of generate_pub occur only by chance (1/256).",
